@@ -281,7 +281,7 @@ def evaluate(case, ctx, need_info=False):
     ev.exact = [a.exact(n) for a in ans]
     ev.exact_f = [complex(v) if isinstance(v, mp.mpc) else float(v) for v in ev.exact]
     # scales
-    ev.S, ev.S1, ev.hmin, ev.hmax, ev.U = [], [], [], [], []
+    ev.S, ev.S1, ev.hmin, ev.hmax, ev.U, ev.Umax = [], [], [], [], [], []
     ev.amp = float(np.sum(np.abs(d.fd_rule.rule(ratio)))) if n > 0 else 1.0
     ev.amp = max(ev.amp, 1.0)
     for j, a in enumerate(ans):
@@ -289,6 +289,7 @@ def evaluate(case, ctx, need_info=False):
             ev.S.append(None)
             ev.S1.append(None)
             ev.U.append(None)
+            ev.Umax.append(None)
             ev.hmin.append(None)
             ev.hmax.append(None)
             continue
@@ -320,12 +321,19 @@ def evaluate(case, ctx, need_info=False):
             ev.U.append(u_x)
         else:
             ev.U.append(u_basic)
+        # worst-window unit (user-supplied steps): every candidate the library can return is a
+        # Richardson combination of the raw estimates of the windows, so its error is at most
+        # sum|w_R| * max over ALL windows of the raw unit (no assumption that the sequence is in its
+        # asymptotic regime or that the best window is selected)
+        amp_all = ev.amp * (richardson_amplification(float(abs(ratio)), p_true, s_true, t) if t > 0 else 1.0)
+        ev.Umax.append(envelope_unit(a, n, p_eff, heads, w, difference_forming(method, n, d.order),
+                                     amp_all, pick='max'))
         ev.hmin.append(hmin)
         ev.hmax.append(hmax)
     return ev
 
 
-def envelope_unit(a, n, p, hs, w, diff_forming, amp):
+def envelope_unit(a, n, p, hs, w, diff_forming, amp, pick='min'):
     """U = amp * min_j [ T_p(w h_j) + R(h_j) ]  for the generated steps h_j   (DESIGN 10.1)
 
     T_p(r) = n! (sum_{k >= n+p} |c_k| r^(k-n) + Cauchy tail)          truncation of an order-p rule
@@ -357,7 +365,7 @@ def envelope_unit(a, n, p, hs, w, diff_forming, amp):
             lr = np.logaddexp(np.logaddexp(np.max(a.log_bound(n, radii, kmin=n), axis=0), lsn), lc) \
                 + math.log(EPS)
         tot = np.logaddexp(lt, lr)
-    j = int(np.argmin(tot))
+    j = int(np.argmin(tot)) if pick == 'min' else int(np.argmax(tot))
     if not np.isfinite(tot[j]) or tot[j] > 700:
         return None
     return amp * math.exp(tot[j]), amp * math.exp(min(lt[j], 700)), amp * math.exp(min(lr[j], 700))
